@@ -250,6 +250,22 @@ Theorem C15_lock_file_reopens : (forall is_root, lock_reopen_ok is_root = true) 
 Proof. exact (conj lock_file_reopens rdwr_reopen_refused). Qed.
 Print Assumptions C15_lock_file_reopens.
 
+(* The stop command.  munged --stop queries the lock file (lock_query; its open flags regenerated from lock.c) and
+   signals the holder: over the model's file system it changes nothing, whatever it finds — with no lock file there
+   (a redundant second stop) it creates none, so "after a clean stop the lock file is gone" survives any number of
+   stop commands and the next start meets no file of the stopper's owner. *)
+Theorem C15_stop_command_footprint :
+  (forall s, fst (stop_query s) = s) /\ lock_query_creat = false /\ lock_query_leaves_file = false.
+Proof. exact (conj stop_footprint_none f_lock_query). Qed.
+Print Assumptions C15_stop_command_footprint.
+
+(* "a new seed file exists" for EVERY seed file the start found: none, good, short, or untrusted (wrong mode, foreign
+   owner, symbolic link — removed at start-up): the seed path is kept, so the shutdown program's OpenSeed / WriteSeed
+   run (facts observed by running random.c's start-up reader on such files). *)
+Theorem C15_seed_written_for_every_start_state : forall f, stop_writes_seed f = true.
+Proof. exact stop_writes_seed_always. Qed.
+Print Assumptions C15_seed_written_for_every_start_state.
+
 (* non-vacuity of the above: a group-writable log file does keep the next life from starting *)
 Theorem C15_refused_log_blocks : exists m u, life_log (Some m) u = None.
 Proof. exact refused_log_blocks. Qed.
